@@ -131,7 +131,9 @@ func parseCsv(content string, event bool) []CsvRow {
 			}
 		} else {
 			f, err := strconv.ParseFloat(cell, 64)
-			if err != nil || math.IsInf(f, 0) || math.IsNaN(f) {
+			if err == nil && (math.IsInf(f, 0) || math.IsNaN(f)) {
+				r.Text = cell // +Inf, -Inf, NaN: shown as they are
+			} else if err != nil {
 				r.Bad, r.Text = true, cell
 			} else {
 				r.IsNum, r.Num = true, f
@@ -209,6 +211,8 @@ func (f *IntentFile) coq() string {
 		d := ""
 		if f.Kind == 0 {
 			d = "DText " + coqS(escapeByHand(p.Text))
+		} else if p.Num == nil {
+			d = "DText " + coqS(p.Text) // a scalar spelled Inf / NaN
 		} else {
 			d = "DNum " + coqRat(p.Num)
 		}
@@ -271,8 +275,11 @@ func expectedJSON(fs []IntentFile) []expJSON {
 					t = "<reception time>"
 				}
 				v := p.Text
-				if f.Kind != 0 {
-					v = fmtRat(p.Num)
+				if f.Kind != 0 && p.Num != nil {
+					v = p.Num.FloatString(0)
+					if !p.Num.IsInt() || len(v) < 25 {
+						v = p.Num.RatString()
+					}
 				}
 				e.Points = append(e.Points, fmt.Sprintf("item %d: t=%s raw=%s", p.Item, t, v))
 			}
